@@ -79,6 +79,21 @@ func newPos(l *lookup, fileName, funcName string, line, column int) pos {
 	// return struct{}{}
 	fileNameIdx := l.Index("#" + fileName)
 	funcNameIdx := l.Index("#" + funcName)
+	// each field has 16 bits: a value that does not fit saturates (line,
+	// column) or is dropped (names) instead of spilling into its neighbour
+	const fieldMax = 0xffff
+	if line > fieldMax {
+		line = fieldMax
+	}
+	if column > fieldMax {
+		column = fieldMax
+	}
+	if funcNameIdx > fieldMax {
+		funcNameIdx = 0
+	}
+	if fileNameIdx > fieldMax {
+		fileNameIdx = 0
+	}
 	return pos((fileNameIdx << 48) | (funcNameIdx << 32) | (line << 16) | column)
 }
 
@@ -93,8 +108,12 @@ func (p pos) info(l *lookup) (fileName, funcName string, line, column int) {
 	funcNameIdx := int((p >> 32) & 0xffff)
 	line = int((p >> 16) & 0xffff)
 	column = int(p & 0xffff)
-	fileName = l.Key(fileNameIdx)[1:]
-	funcName = l.Key(funcNameIdx)[1:]
+	if k := l.Key(fileNameIdx); strings.HasPrefix(k, "#") {
+		fileName = k[1:]
+	}
+	if k := l.Key(funcNameIdx); strings.HasPrefix(k, "#") {
+		funcName = k[1:]
+	}
 	return fileName, funcName, line, column
 }
 
